@@ -272,6 +272,104 @@ func (d *c02HTTP) collect() ([][]byte, []int, error) {
 	return chunks, statuses, nil
 }
 
+// c02SSE drives the legacy HTTP+SSE transport: one hanging GET carries everything the server
+// writes, every wire unit is POSTed to the endpoint the server announced.
+type c02SSE struct {
+	s        *Server
+	h        *SSEHandler
+	stream   *httptest.ResponseRecorder
+	cancel   context.CancelFunc
+	getDone  chan struct{}
+	endpoint string
+	from     int // number of message events that belong to the handshake
+	statuses []int
+}
+
+func (d *c02SSE) events() [][]byte {
+	var out [][]byte
+	for evt, err := range scanEvents(bytes.NewReader(d.stream.Body.Bytes())) {
+		if err != nil {
+			break
+		}
+		if evt.Name == "endpoint" {
+			d.endpoint = string(evt.Data)
+			continue
+		}
+		if len(evt.Data) > 0 {
+			out = append(out, evt.Data)
+		}
+	}
+	return out
+}
+
+func (d *c02SSE) post(body string) int {
+	r := httptest.NewRequest("POST", "http://example.test"+d.endpoint, strings.NewReader(body))
+	r.Header.Set("Content-Type", "application/json")
+	w := httptest.NewRecorder()
+	done := make(chan struct{})
+	go func() {
+		defer close(done)
+		d.h.ServeHTTP(w, r)
+	}()
+	synctest.Wait()
+	select {
+	case <-done:
+	default:
+		return -1 // the POST itself hangs
+	}
+	return w.Code
+}
+
+func (d *c02SSE) open(version string) error {
+	d.h = NewSSEHandler(func(*http.Request) *Server { return d.s }, nil)
+	ctx, cancel := context.WithCancel(context.Background())
+	d.cancel = cancel
+	d.stream = httptest.NewRecorder()
+	d.getDone = make(chan struct{})
+	go func() {
+		defer close(d.getDone)
+		d.h.ServeHTTP(d.stream, httptest.NewRequest("GET", "http://example.test/sse", nil).WithContext(ctx))
+	}()
+	synctest.Wait()
+	d.events()
+	if d.endpoint == "" {
+		return fmt.Errorf("no endpoint event on the SSE stream: %q", d.stream.Body.String())
+	}
+	if st := d.post(`{"jsonrpc":"2.0","id":"h","method":"initialize","params":{"protocolVersion":"` + version + `","capabilities":{},"clientInfo":{"name":"c","version":"1"}}}`); st != 202 {
+		return fmt.Errorf("initialize: HTTP %d", st)
+	}
+	if st := d.post(`{"jsonrpc":"2.0","method":"notifications/initialized","params":{}}`); st != 202 {
+		return fmt.Errorf("initialized: HTTP %d", st)
+	}
+	d.from = len(d.events())
+	d.statuses = nil
+	return nil
+}
+
+func (d *c02SSE) send(unit string) error {
+	st := d.post(unit)
+	if st < 0 {
+		return fmt.Errorf("the POST of a message did not return")
+	}
+	d.statuses = append(d.statuses, st)
+	return nil
+}
+
+func (d *c02SSE) collect() ([][]byte, []int, error) {
+	synctest.Wait()
+	select {
+	case <-d.getDone:
+		return nil, nil, fmt.Errorf("the SSE stream ended (session torn down)")
+	default:
+	}
+	return d.events()[d.from:], d.statuses, nil
+}
+
+func (d *c02SSE) close() {
+	d.cancel()
+	<-d.getDone
+}
+
 func c02Bodies(w *httptest.ResponseRecorder) [][]byte {
 	ct := w.Header().Get("Content-Type")
 	body := w.Body.Bytes()
@@ -345,6 +443,8 @@ func c02Driver_(name string, s *Server) c02Driver {
 		return &c02HTTP{s: s, stateless: true}
 	case "http-stateless-json":
 		return &c02HTTP{s: s, stateless: true, jsonResp: true}
+	case "sse":
+		return &c02SSE{s: s}
 	}
 	panic(name)
 }
@@ -500,7 +600,9 @@ func c02Cases(quick bool) []c02Case {
 	envs := c02Envelopes()
 	ids := c02IDs()
 	var cases []c02Case
-	drivers := []string{"pipe", "http-stateful-sse", "http-stateful-json", "http-stateless-sse", "http-stateless-json"}
+	// (the legacy HTTP+SSE transport takes single messages only: its POST endpoint predates batching, so
+	// the batch families (C), (C') below are not sent over it)
+	drivers := []string{"pipe", "http-stateful-sse", "http-stateful-json", "http-stateless-sse", "http-stateless-json", "sse"}
 	for _, drv := range drivers {
 		versions := []string{"2025-03-26", "2025-06-18"}
 		for _, v := range versions {
@@ -627,7 +729,7 @@ func c02Cases(quick bool) []c02Case {
 		}
 	}
 	// (D) two concurrent gated calls as separate messages, every release order; and a duplicate in-flight id
-	for _, drv := range []string{"pipe", "http-stateful-sse", "http-stateful-json"} {
+	for _, drv := range []string{"pipe", "http-stateful-sse", "http-stateful-json", "sse"} {
 		g := func(k int, id string) (string, c02Sent) {
 			e := c02Env{name: "gated", method: "tools/call", params: fmt.Sprintf(`{"name":"g","arguments":{"k":"%d"}}`, k), gate: true}
 			return c02Line(e, id), c02Sent{id: id, env: e}
@@ -647,7 +749,7 @@ func c02Cases(quick bool) []c02Case {
 	}
 	// (E) the peer cancels an in-flight call: the call is still answered exactly once, and the other
 	// members of its batch are answered too
-	for _, drv := range []string{"pipe", "http-stateful-sse", "http-stateful-json"} {
+	for _, drv := range []string{"pipe", "http-stateful-sse", "http-stateful-json", "sse"} {
 		gated := func(k int, cancelled bool) c02Env {
 			return c02Env{name: "gated", method: "tools/call", params: fmt.Sprintf(`{"name":"g","arguments":{"k":"%d"}}`, k), gate: true, anyClass: cancelled}
 		}
@@ -667,6 +769,9 @@ func c02Cases(quick bool) []c02Case {
 				units: []string{c02Line(gated(1, true), "1"), cu, c02Line(call, "2")},
 				sent:  []c02Sent{{id: "1", env: gated(1, true), unit: 0}, {env: ce, unit: 1}, {id: "2", env: call, unit: 2}},
 				desc:  fmt.Sprintf("%s %s gated call 1 ; cancelled(1) ; call 2 ; release", drv, v)})
+		}
+		if drv == "sse" {
+			continue // single messages only
 		}
 		cu, ce := cancel("1")
 		cases = append(cases, c02Case{driver: drv, version: "2025-03-26", release: []int{1},
